@@ -14,6 +14,7 @@ EXPLANATION = (
     'was extended into on every loop path; (4) each compilation phase is invoked only through CompilationState::apply*, '
     'whose fn-pointer call sits on the no-errors edge; has_errors inspects kind, never level. Decides these clauses on all '
     'paths, not the run-time behaviour of particular inputs.')
+THOROUGH_RERUN = ['release']     # the same rules over the release build (no debug assertions): verified clean on the pinned tree
 ASSUMPTIONS = ['rustc type checking and MIR construction', 'std::process / std::fs are the only ways slicec creates processes or files',
                'clap parses the command line as declared']
 
